@@ -196,7 +196,6 @@ void run_case(Tape& t, Ctx& ctx) {
     int p = int(kSmallPrimes[t.u8() % 11]);
     int a = t.u8() % p, b = t.u8() % p, c = t.u8() % p;
     ctx.desc << "exhaustive Field_Zp p=" << p << " (" << a << "," << b << "," << c << ")\n";
-    ctx.mark_nontrivial();
     zp_triple(ctx, cached_field(p), p, a, b, c);
     return;
   }
